@@ -201,7 +201,7 @@ impl Check for C15 {
         "fault_enumeration"
     }
     fn rule(&self) -> String {
-        "C01's generated trees of 1-5 regular files (empty, sparse, multi-block, with and without prior destination) x driver x --reflink auto|always|never|(absent) x the answer given to ioctl(FICLONE) by the ptrace supervisor: the real filesystem's (EOPNOTSUPP), an injected EOPNOTSUPP/EINVAL/EXDEV/ETXTBSY, a hard EIO, emulated success for every request, or emulated success for a generated half of the requests. Oracle over the syscall log, exit status and bytes: never => no FICLONE at all; always => exit 0 only if every destination file has a successful clone and no data-copy call, and any failed clone request => exit != 0; auto => on each destination file the first clone attempt precedes the first data-copy call, unavailable cloning (EOPNOTSUPP/EINVAL/EXDEV/ETXTBSY/real) => exit 0, and exit 0 => bytes identical (also after emulated clones). Non-trivial: >= 1 non-empty file; distinct by case hash.".into()
+        "C01's generated trees of 1-5 regular files (empty, sparse, multi-block, with and without prior destination) x driver x --reflink auto|always|never|(absent) x the answer given to ioctl(FICLONE) by the ptrace supervisor: the real filesystem's (EOPNOTSUPP), an injected EOPNOTSUPP/EINVAL/EXDEV/ETXTBSY, a hard EIO, emulated success for every request, or emulated success for a generated half of the requests; -v given 0-2 times, and in 30 % of the cases stdout is /dev/full so that every write of the logger fails. Oracle over the syscall log, exit status and bytes: never => no FICLONE at all; always => exit 0 only if every destination file has a successful clone and no data-copy call, and any failed clone request => exit != 0; auto => on each destination file the first clone attempt precedes the first data-copy call, unavailable cloning (EOPNOTSUPP/EINVAL/EXDEV/ETXTBSY/real) => exit 0, and exit 0 => bytes identical (also after emulated clones). Non-trivial: >= 1 non-empty file; distinct by case hash.".into()
     }
     fn assumptions(&self) -> Vec<String> {
         vec!["no reflink-capable filesystem in the sandbox: clone success is emulated at the ioctl boundary (supervisor copies the bytes and returns 0)".into()]
